@@ -324,9 +324,9 @@ def run(ctx):
         seeded_rng(ctx.seed, 'c13h').shuffle(seqs)
         for part in pmap(history_task, [(c, cap) for c in chunks(seqs, ctx.jobs * 2)], ctx.jobs):
             st.merge(part)
-    longs = [('cyclic', 499, 2), ('cyclic', 500, 2), ('cyclic', 501, 2), ('cyclic', 502, 2), ('hot-cold', 600, 1)]
+    longs = [('cyclic', 499, 2), ('cyclic', 500, 2), ('cyclic', 501, 2), ('cyclic', 502, 2), ('hot-cold', 1100, 1), ('hot-cold', 520, 2)]
     if not ctx.quick:
-        longs += [('cyclic', 1500, 2), ('cyclic', 501, 3), ('cyclic', 502, 3), ('hot-cold', 1500, 1)]
+        longs += [('cyclic', 1500, 2), ('cyclic', 501, 3), ('cyclic', 502, 3), ('hot-cold', 2600, 1), ('hot-cold', 5200, 1)]
     for part in pmap(long_history, longs, ctx.jobs):
         st.merge(part)
     return {
